@@ -24,5 +24,5 @@ Print Assumptions C35_shutdown_restart.
 
 (** identical files give identical query results *)
 Theorem C35_same_queries : forall im im' bucket, i_files im = i_files im' -> bucket_rows im bucket = bucket_rows im' bucket.
-Proof. intros im im' bucket H. unfold bucket_rows. rewrite H. reflexivity. Qed.
+Proof. exact same_files_same_queries. Qed.
 Print Assumptions C35_same_queries.
